@@ -587,10 +587,56 @@ def _pol_frontier(ctx):
     return act
 
 
+def _pol_convoy(ctx):
+    """Every robot loads the nearest shelf; the loaded robots then drive in single file: the lowest-numbered loaded robot
+    tours the corners along shelf-free cells, the others chase it and keep pushing FORWARD when they face it (a move the
+    mask forbids while the cell ahead holds the leader's shelf, and allows on the step after the leader has left)."""
+    P = ctx["rw_params"]
+    H, W = P["H"], P["W"]
+    s = _st(ctx)
+    n = len(s["ax"])
+    act = np.zeros(n, np.int32)
+    shelves = _shelf_cells(s)
+    pos = [(int(s["ax"][j]), int(s["ay"][j])) for j in range(n)]
+    loaded = [j for j in range(n) if s["ac"][j]]
+    taken = set()
+    for i in range(n):
+        me, d = pos[i], int(s["ad"][i])
+        others = {pos[j] for j in range(n) if j != i}
+        if not s["ac"][i]:
+            if me in shelves and me not in taken:
+                act[i] = TOGGLE
+                taken.add(me)
+                continue
+            targets = {c for c in shelves if c not in others and c not in taken}
+            _, step = _bfs(me, targets, others, H, W)
+        else:
+            blocked = others | {c for c in shelves if c != me}
+            if loaded and i == loaded[0]:
+                corners = [(0, 0), (0, W - 1), (H - 1, W - 1), (H - 1, 0)]
+                k = ctx.get("rw_convoy_corner", 0)
+                if me == corners[k % 4]:
+                    k += 1
+                    ctx["rw_convoy_corner"] = k
+                _, step = _bfs(me, {corners[k % 4]}, blocked, H, W)
+            else:
+                lead = pos[loaded[0]]
+                if abs(me[0] - lead[0]) + abs(me[1] - lead[1]) == 1:
+                    a = _towards(me[0], me[1], d, lead)
+                    if a == FORWARD:
+                        ctx["legal_only"] = False  # usually masked-out: the leader's shelf is in the cell ahead
+                    act[i] = a
+                    continue
+                _, step = _bfs(me, {lead}, blocked - {lead}, H, W)
+        if step is not None and step != me:
+            act[i] = _towards(me[0], me[1], d, step)
+    return act
+
+
 def policies(P):
     def wrap(fn):
         def pol(ctx):
             ctx["rw_params"] = P.params
             return fn(ctx)
         return pol
-    return {"complete": wrap(_pol_complete), "collide": wrap(_pol_collide), "frontier": wrap(_pol_frontier)}
+    return {"complete": wrap(_pol_complete), "collide": wrap(_pol_collide), "frontier": wrap(_pol_frontier), "convoy": wrap(_pol_convoy)}
